@@ -31,6 +31,9 @@ def configs(tier, seed):
   # period; what it was sending at that moment still has to arrive (over the old or the new connection)
   for p in ('pickle', 'line'):
     cfgs.append(dict(name='%s/ratio-reset' % p, proto=p, shard=55, ratio=True))
+  # TIME_TO_DEFER_SENDING = 0 ("send as fast as possible") with a backlog of thousands of small messages
+  for p in ('pickle', 'line'):
+    cfgs.append(dict(name='%s/defer0' % p, proto=p, shard=66, defer0=True))
   return cfgs
 
 
@@ -50,7 +53,8 @@ def run_config(cfg, res):
   from vlib import relayharness as rh, proto
   rl = rh.boot_relay({'RELAY_METHOD': 'constant', 'DESTINATIONS': '127.0.0.1:2004:a', 'DESTINATION_PROTOCOL': cfg['proto'],
                       'MAX_QUEUE_SIZE': 100000, 'USE_FLOW_CONTROL': False,
-                      'PICKLE_RECEIVER_MAX_LENGTH': (8 * 2 ** 20 if cfg.get('big') else 2 ** 20)})
+                      'PICKLE_RECEIVER_MAX_LENGTH': (8 * 2 ** 20 if cfg.get('big') else 2 ** 20),
+                      'TIME_TO_DEFER_SENDING': (0 if cfg.get('defer0') else 0.0001)})
   import carbon.protocols as P
   from carbon import events
   rec = proto.install_recorder()
@@ -70,6 +74,8 @@ def run_config(cfg, res):
   ncases = 500 if cfg['tier'] == 'quick' else 8000
   if cfg.get('big'):
     ncases = 2 if cfg['tier'] == 'quick' else 6
+  if cfg.get('defer0'):
+    ncases = 3 if cfg['tier'] == 'quick' else 10
   pool, dppool = [], []
   for case in range(ncases):
     batch = r.choice([1, 2, 3, 7, 500])
@@ -77,6 +83,9 @@ def run_config(cfg, res):
     if cfg.get('big'):
       batch, n = r.choice([30000, 50000]), r.choice([45000, 60000])
       res.count('big_batches')
+    if cfg.get('defer0'):
+      batch, n = r.choice([1, 2, 3, 7]), r.choice([1500, 3000, 5000])
+      res.count('long_backlogs')
     settings['MAX_DATAPOINTS_PER_MESSAGE'] = batch
     queued = []
     share = r.random() < 0.5          # recurring series: the very same name / datapoint objects show up in several messages
@@ -125,30 +134,50 @@ def run_config(cfg, res):
     # its producer from inside write(), the harness lets it drain and resumes
     transport.hw = r.choice([None, None, 40, 200, 1000, 4096])
     transport.unflushed = 0
+    if cfg.get('defer0') and case % 2 == 0 and conn.state == 'connected':
+      conn.h_connection_lost()          # the destination is away while the backlog builds up; it is flushed on reconnect
+      res.count('backlogs_built_while_disconnected')
     for name, dp in queued:
       rl.manager.sendDatapoint(name, dp)
+    def drive_client():
+      nonlocal transport, old_data
+      guard = 0
+      while (factory.queueSize or conn.state != 'connected' or conn.protocol.paused) and guard < 20000:
+        if conn.state == 'connected' and transport.disconnecting:
+          # the client asked for the connection to be closed (quality reset): what it wrote is flushed, then the connection
+          # goes down and the reconnecting factory brings up a new one
+          old_data += transport.value()
+          conn.h_connection_lost()
+          res.count('connection_resets_by_the_client')
+        if conn.state == 'disconnected':
+          fake.advance(60)
+        if conn.state == 'connecting':
+          transport = conn.h_connection_made()
+          transport.hw = None
+        if conn.protocol is None:
+          guard += 1
+          continue
+        if conn.protocol.paused:
+          transport.flush()
+          conn.protocol.resumeProducing()
+          res.count('mid_message_pauses')
+        fake.advance(settings.TIME_TO_DEFER_SENDING)
+        guard += 1
     guard = 0
-    while (factory.queueSize or conn.state != 'connected' or conn.protocol.paused) and guard < 20000:
-      if conn.state == 'connected' and transport.disconnecting:
-        # the client asked for the connection to be closed (quality reset): what it wrote is flushed, then the connection
-        # goes down and the reconnecting factory brings up a new one
-        old_data += transport.value()
+    try:
+      drive_client()
+    except Exception as e:
+      res.violation('%s/client-raised/%s' % (cfg['proto'], type(e).__name__), 'the relay\'s client raised %s while sending %d queued datapoints (batch %d): %.200r' % (
+        type(e).__name__, n, batch, e), dict(batch=batch, n=n))
+      # a fresh connection for the next case
+      if conn.state == 'connected':
         conn.h_connection_lost()
-        res.count('connection_resets_by_the_client')
-      if conn.state == 'disconnected':
-        fake.advance(60)
+      factory.queue.clear()
+      fake.advance(120)
       if conn.state == 'connecting':
         transport = conn.h_connection_made()
-        transport.hw = None
-      if conn.protocol is None:
-        guard += 1
-        continue
-      if conn.protocol.paused:
-        transport.flush()
-        conn.protocol.resumeProducing()
-        res.count('mid_message_pauses')
-      fake.advance(settings.TIME_TO_DEFER_SENDING)
-      guard += 1
+      continue
+    pass
     fake.advance(settings.TIME_TO_DEFER_SENDING)
     if factory.queueSize:
       res.violation('%s/queue-not-drained' % cfg['proto'], 'queue still holds %d datapoints after %d timer steps' % (factory.queueSize, guard))
